@@ -97,3 +97,42 @@ import from SingleInteger;
 f(n: SingleInteger): SingleInteger == if n < 2 then 1 else n * f(n-1);
 print << "hello " << f(10) << newline;
 '''
+
+
+ALDORLIB = os.path.join(LIBREPO, "aldor", "lib", "aldor")
+LIBALDOR_ARGS = ["-I%s/include" % ALDORLIB, "-Y%s/src" % ALDORLIB]	# must precede the compiler's own -I (its source
+								# directory holds a file called `aldor')
+
+
+def corpus_libaldor(max_bytes=8000):
+    """Programs over the other standard library: lib/aldor/test/<n>/<n>.as and the user guide's examples."""
+    out = []
+    root = os.path.join(LIBREPO, "aldor")
+    cands = []
+    t = os.path.join(root, "lib", "aldor", "test")
+    try:
+        for d in sorted(os.listdir(t)):
+            cands.append(os.path.join(t, d, d + ".as"))
+    except OSError:
+        pass
+    for sub in ("examples", "samples"):
+        dd = os.path.join(root, "aldorug", sub)
+        try:
+            for n in sorted(os.listdir(dd)):
+                if n.endswith(".as"):
+                    cands.append(os.path.join(dd, n))
+        except OSError:
+            pass
+    seen = set()
+    for p in cands:
+        n = os.path.basename(p)
+        try:
+            if n in seen or not os.path.isfile(p) or os.path.getsize(p) > max_bytes:
+                continue
+            if b'#include "aldor"' not in open(p, "rb").read():
+                continue
+        except OSError:
+            continue
+        seen.add(n)
+        out.append((n, p, os.path.getsize(p)))
+    return out
